@@ -10,6 +10,7 @@ CONSTANTS
   Callers = {"c1"}
   Outcomes = {"ok", "fail"}
   SplitAcquire = TRUE
+  SplitTransition = FALSE
   Defects = {"StaleHalfOpen"}
   MaxNow = 9
   MaxCount = 2
